@@ -280,7 +280,14 @@ type GhostVar struct {
 	Imports map[string]string
 }
 
+type PkgInvariant struct {
+	Pkg     string
+	Clause  Clause
+	Imports map[string]string
+}
+
 type SpecFile struct {
+	Invariants []*PkgInvariant
 	Imports   map[string]string
 	Contracts []*Contract
 	Funcs     []*SpecFunc
@@ -407,6 +414,10 @@ func parseSpecTokens(toks []stok, pkg string) (sf *SpecFile, err error) {
 			p.expect(":")
 			ax.E = p.parseExpr()
 			sf.Axioms = append(sf.Axioms, ax)
+		case p.isKw("invariant"):
+			kw := p.next()
+			cl := p.parseClause(kw, fmt.Sprintf("inv%d", len(sf.Invariants)+1))
+			sf.Invariants = append(sf.Invariants, &PkgInvariant{Pkg: p.pkg, Clause: cl, Imports: sf.Imports})
 		case p.accept("type"):
 			name := p.ident()
 			p.expect("struct")
@@ -610,6 +621,11 @@ func (p *parser) parseModItem() ModItem {
 		}
 	case p.accept("mapof"):
 		mi.Kind = "map"
+		p.expect("(")
+		mi.X = p.parseExpr()
+		p.expect(")")
+	case p.accept("cellof"):
+		mi.Kind = "cell"
 		p.expect("(")
 		mi.X = p.parseExpr()
 		p.expect(")")
